@@ -17,7 +17,7 @@ from .values import (V, VBool, VBound, VClosure, VInt, VMatch, VNone, VObj, VOpa
 BUILTIN_NAMES = {
     "len", "isinstance", "cast", "str", "int", "bool", "list", "tuple", "next", "any", "all",
     "enumerate", "reversed", "range", "print", "getattr", "hasattr", "id", "min", "max", "zip", "set",
-    "implies", "old", "iff", "repr", "type", "sorted", "dict", "bytes", "float", "object",
+    "implies", "old", "iff", "repr", "heap_unchanged", "type", "sorted", "dict", "bytes", "float", "object",
 }
 EXC_NAMES = {
     "ValueError", "KeyError", "TypeError", "IndexError", "AttributeError", "AssertionError",
@@ -826,15 +826,13 @@ class Evaluator:
         return self.call_value(fv, args, kwargs, node, env)
 
     def eval_old(self, expr, env):
-        sub = Evaluator(self.ctx, self.path, pure=True, fn_name=self.fn_name)
-        sub.__dict__.update({k: v for k, v in self.__dict__.items() if k not in ("pure",)})
-        sub.pure = True
+        """old(e): e evaluated in the entry heap (parameters in post-state clauses already denote entry values)."""
+        sub = self.pure_eval()
         saved = self.path.heap
         try:
             if self.old_heap is not None:
                 self.path.heap = dict(self.old_heap)
-            e = self.entry_env if self.entry_env is not None else env
-            return sub.ev(expr, e)
+            return sub.ev(expr, env)
         finally:
             self.path.heap = saved
 
@@ -927,20 +925,32 @@ class Evaluator:
         return default
 
     def call_anyall(self, which, gen, env, node):
-        if len(gen.generators) != 1:
-            self.oos(node, "nested generator")
-        g = gen.generators[0]
-        n, el = self.comp_source(g, env, node)
-        j = self.path.fresh("j", z3.IntSort())
+        """any/all over a generator: a quantifier (nested generators give nested bound variables)."""
+        bound = []
+        rngs = []
         e2 = self.E.Env(parent=env)
-        self.bind_target(g.target, el(j), e2, node)
         sub = self.pure_eval()
-        conds = [sub.truth(sub.ev(c, e2)) for c in g.ifs]
+        for g in gen.generators:
+            j = self.path.fresh("j", z3.IntSort())
+            bound.append(j)
+            it = g.iter
+            if isinstance(it, ast.Call) and isinstance(it.func, ast.Name) and it.func.id == "range" and e2.lookup("range") is None:
+                args = [sub.lift(sub.ev(a, e2)) for a in it.args]
+                lo, hi = (VInt(I(0)), args[0]) if len(args) == 1 else (args[0], args[1])
+                rngs.append(z3.And(j >= lo.t, j < hi.t))
+                self.bind_target(g.target, VInt(j), e2, node)
+            else:
+                src = sub.lift(sub.ev(it, e2))
+                n, el = self.iter_source(src, node)
+                rngs.append(z3.And(j >= 0, j < n))
+                self.bind_target(g.target, el(j), e2, node)
+            for c in g.ifs:
+                rngs.append(sub.truth(sub.ev(c, e2)))
         body = sub.truth(sub.ev(gen.elt, e2))
-        rng = z3.And(j >= 0, j < n, *conds)
+        rng = z3.And(*rngs)
         if which == "any":
-            return VBool(z3.Exists([j], z3.And(rng, body)))
-        return VBool(z3.ForAll([j], z3.Implies(rng, body)))
+            return VBool(z3.Exists(bound, z3.And(rng, body)))
+        return VBool(z3.ForAll(bound, z3.Implies(rng, body)))
 
     def pure_eval(self):
         sub = Evaluator(self.ctx, self.path, pure=True, fn_name=self.fn_name)
@@ -1003,6 +1013,11 @@ class Evaluator:
                 return VInt(I(0))
         if name == "iff":
             return VBool(self.truth(args[0]) == self.truth(args[1]))
+        if name == "heap_unchanged":
+            old = self.old_heap or {}
+            cur = self.path.heap
+            eqs = [cur[f] == old[f] for f in cur if f in old and f != "$alloc" and not z3.eq(cur[f], old[f])]
+            return VBool(z3.And(*eqs) if eqs else z3.BoolVal(True))
         if name == "implies":
             return VBool(z3.Implies(self.truth(args[0]), self.truth(args[1])))
         if name == "str":
